@@ -42,7 +42,9 @@ def columns_vs_core(tier, seed):
         (columns.Boolean(), cqltypes.BooleanType, [True, False]),
         (columns.Double(), cqltypes.DoubleType, [0.0, -0.0, 1.5, 1e308, 5e-324] + [rng.uniform(-1e9, 1e9) for _ in range(N)]),
         (columns.Float(), cqltypes.FloatType, [0.0, 1.5, -2.25, 3.0e38] + [float(rng.randrange(-2 ** 20, 2 ** 20)) / 8 for _ in range(N)]),
-        (columns.Decimal(), cqltypes.DecimalType, [decimal.Decimal('0'), decimal.Decimal('-1.50'), decimal.Decimal('123456789.000000001'), decimal.Decimal('1E+20')] +
+        (columns.Decimal(), cqltypes.DecimalType, [decimal.Decimal('0'), decimal.Decimal('-1.50'), decimal.Decimal('123456789.000000001'), decimal.Decimal('1E+20'),
+                                                     decimal.Decimal('1.2345678901234567890123456789012345'), decimal.Decimal(10 ** 30 + 1), decimal.Decimal('-0.' + '1234567890' * 4), 10 ** 30 + 1,
+                                                     '98765432109876543210987654321098765.4321', 0.1, 1e-7] +
          [decimal.Decimal(rng.randrange(-10 ** 12, 10 ** 12)).scaleb(-rng.randrange(0, 9)) for _ in range(N)]),
         (columns.Text(), cqltypes.UTF8Type, ['', 'a', "it's", 'é中\U0001f600', 'x' * 300]),
         (columns.Ascii(), cqltypes.AsciiType, ['', 'abc', '~!@']),
@@ -65,7 +67,10 @@ def columns_vs_core(tier, seed):
             seen.add((type(col).__name__, repr(v)))
             try:
                 via = ctype.serialize(col.to_database(v), 4)
-                direct = ctype.serialize(v, 4)
+                core_v = v
+                if isinstance(col, columns.Decimal) and not isinstance(v, decimal.Decimal):
+                    core_v = decimal.Decimal(repr(v)) if isinstance(v, float) else decimal.Decimal(v)      # the documented coercion: the exact decimal the literal denotes
+                direct = ctype.serialize(core_v, 4)
             except Exception as e:
                 fails.append('%s value %r: %r' % (type(col).__name__, v, e))
                 continue
